@@ -12,7 +12,7 @@
    naming particle p, [named es] = the particles named (C12/Spec.v). *)
 From Coq Require Import List NArith ZArith Bool String Ascii Reals.
 From T4V Require Import Base.Str Base.Scalar C12.Text C12.Model C12.Spec
-     C12.ProofsExpand C12.ProofsText C12.ProofsCells C12.ProofsDeck.
+     C12.Cards C12.ProofsExpand C12.ProofsText C12.ProofsCells C12.ProofsDeck C12.ProofsCards C12.Examples.
 Import ListNotations.
 Open Scope string_scope.
 Open Scope list_scope.
@@ -20,11 +20,12 @@ Open Scope list_scope.
 (* ---- shorthand of data cards ---- *)
 
 (* expand_data_card returns exactly the numbers the entries stand for (nR, nI,
-   xM, nJ; any scalar type, any primitives) and consumes every token *)
+   xM, nJ, nLOG/nILOG; any scalar type, any primitives, x**y being the
+   primitive pw) and consumes every token *)
 Theorem C12_expand_shorthand :
   forall (T : Type) (Sc : Scalar T) (P : prims T) (toks : list string)
          (es : list (entry (T:=T))) (out : list (option T)),
-    reads P toks es -> meaning Sc es None = Some out ->
+    reads P toks es -> meaning Sc (pw P) es None = Some out ->
     expand Sc P toks None = Ok (out, List.length toks).
 Proof. exact @expand_shorthand. Qed.
 Print Assumptions C12_expand_shorthand.
@@ -39,6 +40,18 @@ Proof.
   split; [exact H0|]. split; [exact Hn|]. apply interp_step.
 Qed.
 Print Assumptions C12_interpolates_evenly_spaced.
+
+(* over the reals (x**y = Rpower) the values of nLOG start at a, end at b and
+   have the constant ratio (b/a)**(1/(n+1)) *)
+Theorem C12_log_interpolates_constant_ratio : forall (a b : R) (n k : nat),
+  (a <> 0 -> 0 < b / a ->
+   log_interp RS Rpower a b n 0 = a /\ log_interp RS Rpower a b n (S n) = b /\
+   log_interp RS Rpower a b n (S k) = log_interp RS Rpower a b n k * Rpower (b / a) (1 / (INR n + 1)))%R.
+Proof.
+  intros a b n k Ha Hr. destruct (log_interp_ends a b n Ha Hr) as [H0 Hn].
+  split; [exact H0|]. split; [exact Hn|]. apply log_interp_ratio.
+Qed.
+Print Assumptions C12_log_interpolates_constant_ratio.
 
 (* ---- IMP data cards: one importance per cell rank, the largest over the
    particle types; cards of different lengths are refused ---- *)
@@ -59,6 +72,27 @@ Theorem C12_importance_cards_uneven_refused :
     importance_cards Sc P cards = Err ECell.
 Proof. exact @importance_cards_uneven. Qed.
 Print Assumptions C12_importance_cards_uneven_refused.
+
+(* jumped entries (nJ): a single IMP card is taken as it is (None = jumped) ... *)
+Theorem C12_importance_cards_single :
+  forall (T : Type) (Sc : Scalar T) (P : prims T) (name : string) (toks : list string)
+         (es : list (entry (T:=T))) (vals : list (option T)),
+    reads P toks es -> meaning Sc (pw P) es None = Some vals ->
+    importance_cards Sc P [(name, toks)] = Ok vals.
+Proof. exact @importance_cards_single. Qed.
+Print Assumptions C12_importance_cards_single.
+
+(* ... with two or more cards a jumped entry anywhere stops the run
+   (max(None, x): TypeError) *)
+Theorem C12_importance_cards_jump_refused :
+  forall (T : Type) (Sc : Scalar T) (P : prims T) (cards : list (string * list string))
+         (first : list (option T)) (others : list (list (option T))),
+    NoDup (map fst cards) -> cards_read_o Sc P cards (first :: others) -> others <> [] ->
+    Forall (fun l => List.length l = List.length first) others ->
+    existsb has_none (first :: others) = true ->
+    importance_cards Sc P cards = Err EType.
+Proof. exact @importance_cards_jump_refused. Qed.
+Print Assumptions C12_importance_cards_jump_refused.
 
 (* ---- cell cards ---- *)
 
@@ -133,6 +167,18 @@ Theorem C12_skipped_iff_zero :
 Proof. exact @skipped_iff_zero. Qed.
 Print Assumptions C12_skipped_iff_zero.
 
+(* the list printed in the end-of-run NOTE (Model.note_lines renders it as
+   Python prints it; tied to stdout byte for byte): the keys of the
+   zero-importance cells in the order of the cell block, each once *)
+Theorem C12_note_order :
+  forall (T : Type) (Sc : Scalar T) (P : prims T) (imp_cards : list (string * list string))
+         (cards : list card) (lats : list (Z * list (Z * Z)))
+         (cells : list (Z * cell (T:=T))) (skipped : list Z),
+    parse_cells Sc P imp_cards cards lats = Ok (cells, skipped) ->
+    skipped = map fst (filter (fun kc => is_zero Sc (snd kc)) cells) /\ NoDup skipped.
+Proof. exact @skipped_in_order. Qed.
+Print Assumptions C12_note_order.
+
 (* a cell in no universe and without FILL is handed to the conversion iff it is
    not in the skip list *)
 Theorem C12_converted_iff_nonzero :
@@ -166,6 +212,25 @@ Theorem C12_data_card_max_zero :
 Proof. exact data_card_zero_iff. Qed.
 Print Assumptions C12_data_card_max_zero.
 
+(* a jumped entry of a single IMP card: the importance stays None, which is not
+   == 0; the cell at that rank is not skipped, and is converted when it is in no
+   universe and has no FILL (what the code does; the property text is silent
+   about jumps) *)
+Theorem C12_jumped_cell_kept :
+  forall (P : prims R) (name : string) (toks : list string) (es : list (entry (T:=R)))
+         (vals : list (option R)) (cards : list card) (lats : list (Z * list (Z * Z)))
+         (cells : list (Z * cell (T:=R))) (skipped : list Z) (r : nat) (key : Z)
+         (mat geom opts : string),
+    parse_cells RS P [(name, toks)] cards lats = Ok (cells, skipped) ->
+    reads P toks es -> meaning RS (pw P) es None = Some vals -> nth_error vals r = Some None ->
+    nth_error (dict_of Z.eqb cards) r = Some (key, (Explicit mat geom, opts)) ->
+    opt_imps RS P (option_tokens opts) [] ->
+    ~ In key skipped /\
+    exists c, In (key, c) cells /\ c_imp c = None /\
+              (c_u c = 0%Z -> c_fill c = FNone -> In key (conv_keys RS cells)).
+Proof. exact jumped_cell_kept. Qed.
+Print Assumptions C12_jumped_cell_kept.
+
 (* THE PROPERTY for importances on cell cards, any card - explicit, LIKE n BUT,
    chains of LIKE: with o the options the chain resolves to (base options first,
    BUT options appended) and es the IMP entries met in o, the cell is skipped
@@ -183,6 +248,47 @@ Theorem C12_chain_zero_iff :
     (In key skipped <-> forall p, In p (named es) -> last_value p es = Some 0%R).
 Proof. exact chain_zero_iff. Qed.
 Print Assumptions C12_chain_zero_iff.
+
+(* apply_but joins the options of the card a LIKE card refers to and the BUT
+   options with a blank: the tokens are those of the first followed by those of
+   the second, unless a colon sits at the junction (ends_colon: the text ends
+   with ':' and blanks; lead_colon: it starts with blanks and ':') *)
+Theorem C12_option_tokens_app : forall a b : string,
+  ends_colon a = false -> lead_colon b = false ->
+  option_tokens (a ++ " " ++ b) = option_tokens a ++ option_tokens b.
+Proof. exact option_tokens_app. Qed.
+Print Assumptions C12_option_tokens_app.
+
+(* entries met later replace earlier ones, particle by particle *)
+Theorem C12_last_value_app : forall (T : Type) (p : string) (a b : list (imp_entry (T:=T))),
+  last_value p (a ++ b) = match last_value p b with Some y => Some y | None => last_value p a end.
+Proof. exact @last_value_app. Qed.
+Print Assumptions C12_last_value_app.
+
+(* THE PROPERTY for the cards AS WRITTEN, LIKE chains of any length: l = the
+   option texts of the cards the chain of the cell visits (nearest first, [] for
+   an explicit card); every card's option text has no colon at either end; the
+   options are IMP keywords with a number, one-argument keywords (U RHO MAT LAT)
+   and words the dispatch does not react to (scan_imps); ess = the IMP entries
+   of the base card, of the cards of the chain, and finally of the card itself.
+   The cell is skipped iff for every particle named anywhere in the chain the
+   LAST entry naming it (the card's own BUT entry if there is one, by
+   C12_last_value_app) is zero. *)
+Theorem C12_like_written_zero_iff :
+  forall (P : prims R) (imp_cards : list (string * list string)) (cards : list card)
+         (lats : list (Z * list (Z * Z))) (cells : list (Z * cell (T:=R))) (skipped : list Z)
+         (r : nat) (key : Z) (b : body) (opts : string) (l : list string)
+         (ess : list (list (imp_entry (T:=R)))),
+    parse_cells RS P imp_cards cards lats = Ok (cells, skipped) ->
+    nth_error (dict_of Z.eqb cards) r = Some (key, (b, opts)) ->
+    chain_cards (S (List.length (dict_of Z.eqb cards))) (dict_of Z.eqb cards) b = Ok l ->
+    Forall (fun c => clean_opts (snd (snd c))) (dict_of Z.eqb cards) ->
+    Forall2 (fun o es => scan_imps P (option_tokens o) = Some es) (rev l ++ [opts]) ess ->
+    List.concat ess <> [] -> Forall (fun e => 0 <= snd e)%R (List.concat ess) ->
+    (In key skipped <->
+     forall p, In p (named (List.concat ess)) -> last_value p (List.concat ess) = Some 0%R).
+Proof. exact like_written_zero_iff. Qed.
+Print Assumptions C12_like_written_zero_iff.
 
 (* explicit card *)
 Theorem C12_cell_card_zero_iff :
@@ -235,6 +341,34 @@ Theorem C12_written_volumes :
 Proof. exact @written_ids_conv_keys. Qed.
 Print Assumptions C12_written_volumes.
 
+(* ---- from the text of the cards (Card.content(): comments removed, one blank
+   between words) ---- *)
+
+(* an IMP data card  name ++ " " ++ body  (name starts with a letter and holds
+   no digit: imp:n, IMP:N,P ...; body starts with the first digit of the first
+   entry): the dictionary key is the lower-cased name with its blank, the entries
+   are the words of body *)
+Theorem C12_imp_card_text : forall name body : string,
+  (match name with String c _ => is_letter c = true | EmptyString => False end) ->
+  all_chars (fun c => negb (is_digit c)) name = true ->
+  (match body with String c _ => is_digit c = true | EmptyString => False end) ->
+  hd_fails (Ascii.eqb "*") (snd (span is_digit body)) ->
+  String.prefix "imp:" (lstrip (lower (name ++ " "))) = true ->
+  imp_cards_of [(name ++ " " ++ body)%string] = Ok [(lower (name ++ " "), split_ws body)].
+Proof. exact imp_card_text. Qed.
+Print Assumptions C12_imp_card_text.
+
+(* once the card texts are split (cellcard.split / datacard.split / LIKE_RE,
+   model C12/Cards.v, tied on the real card contents), parsing the deck text is
+   parse_cells on the split cards: every theorem above applies to deck text *)
+Theorem C12_parse_deck_text_split :
+  forall (T : Type) (Sc : Scalar T) (P : prims T) (ctexts dtexts : list string)
+         (lats : list (Z * list (Z * Z))) (ic : list (string * list string)) (cards : list card),
+    imp_cards_of dtexts = Ok ic -> cards_of_texts Sc P ctexts = Ok cards ->
+    parse_deck_text Sc P ctexts dtexts lats = parse_cells Sc P ic cards lats.
+Proof. exact @parse_deck_text_split. Qed.
+Print Assumptions C12_parse_deck_text_split.
+
 (* ---- non-vacuity ---- *)
 
 (* a data card with every kind of shorthand, read and expanded *)
@@ -242,32 +376,13 @@ Example C12_example_card :
   let toks := ["1"; "2R"; "i"; "1"; "1m"; "J"] in
   let es := [EVal 1%R; ERep 2; EInt 1 1%R; EMul 1%R; EJump 1] in
   reads wP toks es /\
-  exists out, meaning RS es None = Some out /\ List.length out = 7%nat /\
+  exists out, meaning RS (pw wP) es None = Some out /\ List.length out = 7%nat /\
               expand RS wP toks None = Ok (out, 6%nat).
-Proof.
-  cbv zeta.
-  assert (reads wP ["1"; "2R"; "i"; "1"; "1m"; "J"]
-                [EVal 1%R; ERep 2; EInt 1 1%R; EMul 1%R; EJump 1]) as Hr.
-  { apply reads_val; [reflexivity|exists "1"%char; repeat split; discriminate|].
-    apply (reads_rep wP "2R" "2" 2); [reflexivity|right; reflexivity|].
-    apply (reads_int wP "i" "" 1); [reflexivity|left; split; reflexivity|reflexivity|].
-    apply (reads_mul wP "1m" "1"); [reflexivity|discriminate|reflexivity|].
-    apply (reads_jump wP "J" "" 1); [reflexivity|left; split; reflexivity|].
-    apply reads_nil. }
-  split; [exact Hr|].
-  eexists. split; [cbn; reflexivity|]. split; [reflexivity|].
-  apply (C12_expand_shorthand R RS wP _ _ _ Hr). cbn. reflexivity.
-Qed.
+Proof. exact C12_example_card_ok. Qed.
 
 (* a deck inside the hypotheses of C12_data_card_max_zero and
    C12_cell_card_zero_iff: two IMP cards with shorthand, a cell with an inert
    keyword, a cell with U=1 and IMP keywords *)
-Definition example_imp_cards : list (string * list string) :=
-  [("imp:n", ["1"; "0"; "r"]); ("imp:p", ["0"; "0"; "1"])].
-Definition example_cards : list card :=
-  [ (10%Z, (Explicit "0" "-1", "vol=1"));
-    (20%Z, (Explicit "0" "1 -2", ""));
-    (30%Z, (Explicit "0" "2", "u=1 imp:n=0 imp:p=1")) ].
 
 Example C12_example_deck :
   NoDup (map fst example_imp_cards) /\
@@ -276,30 +391,7 @@ Example C12_example_deck :
   opt_imps RS wP (option_tokens "u=1 imp:n=0 imp:p=1") [(["n"], 0%R); (["p"], 1%R)] /\
   exists cells, parse_cells RS wP example_imp_cards example_cards [] = Ok (cells, [20%Z]) /\
                 conv_keys RS cells = [10%Z].
-Proof.
-  split; [|split; [|split; [|split]]].
-  - repeat constructor; cbn; intuition discriminate.
-  - eapply cr_cons with (es := [EVal 1%R; EVal 0%R; ERep 1]).
-    + apply reads_val; [reflexivity|exists "1"%char; repeat split; discriminate|].
-      apply reads_val; [reflexivity|exists "0"%char; repeat split; discriminate|].
-      apply (reads_rep wP "r" "" 1); [reflexivity|left; split; reflexivity|apply reads_nil].
-    + reflexivity.
-    + eapply cr_cons with (es := [EVal 0%R; EVal 0%R; EVal 1%R]).
-      * apply reads_val; [reflexivity|exists "0"%char; repeat split; discriminate|].
-        apply reads_val; [reflexivity|exists "0"%char; repeat split; discriminate|].
-        apply reads_val; [reflexivity|exists "1"%char; repeat split; discriminate|apply reads_nil].
-      * reflexivity.
-      * apply cr_nil.
-  - change (option_tokens "vol=1") with ["vol"; "1"].
-    apply (oi_other RS wP "vol" ["1"] 0); [apply consumes_inert; repeat split|].
-    apply (oi_other RS wP "1" [] 0); [apply consumes_inert; repeat split|apply oi_nil].
-  - change (option_tokens "u=1 imp:n=0 imp:p=1") with ["u"; "1"; "imp:n"; "0"; "imp:p"; "1"].
-    apply (oi_other RS wP "u" _ 1);
-      [apply (consumes_u RS wP "u" "1" 1%R); reflexivity|].
-    cbn [skipn]. apply (oi_imp RS wP "imp:n" "0" 0%R); [reflexivity|reflexivity|].
-    apply (oi_imp RS wP "imp:p" "1" 1%R); [reflexivity|reflexivity|apply oi_nil].
-  - eexists. split; [rcompute; reflexivity|rcompute; reflexivity].
-Qed.
+Proof. exact C12_example_deck_ok. Qed.
 
 (* the hypotheses of C12_chain_zero_iff on "2 LIKE 1 BUT IMP:N=0" with
    "1 0 -1 IMP:N=1": the chain resolves to the base options followed by the BUT
@@ -312,12 +404,7 @@ Example C12_example_like :
   last_value "n" [(["n"], 1%R); (["n"], 0%R)] = Some 0%R /\
   exists cells, parse_cells RS wP [] like_deck [] = Ok (cells, [2%Z]) /\
                 conv_keys RS cells = [1%Z; 3%Z].
-Proof.
-  split; [reflexivity|]. split; [|split; [reflexivity|exact like_deck_skipped]].
-  change (option_tokens "imp:n=1 imp:n=0") with ["imp:n"; "1"; "imp:n"; "0"].
-  apply (oi_imp RS wP "imp:n" "1" 1%R); [reflexivity|reflexivity|].
-  apply (oi_imp RS wP "imp:n" "0" 0%R); [reflexivity|reflexivity|apply oi_nil].
-Qed.
+Proof. exact C12_example_like_ok. Qed.
 
 (* "1 0 -1 IMP:N=1 NONU=1": NONU is not U (the former defect
    keyword_with_u_read_as_universe, repaired by f85f992): the cell is converted *)
@@ -332,12 +419,32 @@ Example C12_example_words :
   Forall (fun ws => word (fst ws) /\ sep_ok (snd ws)) ws /\ word "3.5" /\
   join ws "3.5" = "imp:n=0 vol 3.5" /\
   option_tokens "imp:n=0 vol 3.5" = ["imp:n"; "0"; "vol"; "3.5"].
-Proof.
-  cbv zeta.
-  assert (Forall (fun ws => word (fst ws) /\ sep_ok (snd ws))
-                 [("imp:n", "="%char); ("0", " "%char); ("vol", " "%char)]) as Hw
-    by (repeat constructor; cbn; auto).
-  assert (word "3.5") as Hl by (repeat split; reflexivity).
-  split; [exact Hw|]. split; [exact Hl|]. split; [reflexivity|].
-  exact (C12_option_tokens_words _ _ Hw Hl).
-Qed.
+Proof. exact C12_example_words_ok. Qed.
+
+(* the hypotheses of C12_like_written_zero_iff on cell 2 of the LIKE deck *)
+Example C12_example_like_written :
+  chain_cards (S (List.length (dict_of Z.eqb like_deck))) (dict_of Z.eqb like_deck) (Like 1) = Ok ["imp:n=1"] /\
+  Forall (fun c => clean_opts (snd (snd c))) (dict_of Z.eqb like_deck) /\
+  Forall2 (fun o es => scan_imps wP (option_tokens o) = Some es) (rev ["imp:n=1"] ++ ["imp:n=0"])
+          [[(["n"], 1%R)]; [(["n"], 0%R)]].
+Proof. exact C12_example_like_written_ok. Qed.
+
+(* a card with logarithmic interpolation: the hypotheses of C12_expand_shorthand
+   for an nLOG entry are satisfiable *)
+Example C12_example_log :
+  let toks := ["1"; "1LOG"; "1"; "1ilog"; "1"] in
+  let es := [EVal 1%R; ELog 1 1%R; ELog 1 1%R] in
+  reads wP toks es /\ exists out, meaning RS (pw wP) es None = Some out /\ List.length out = 5%nat.
+Proof. exact C12_example_log_ok. Qed.
+
+(* the LIKE deck from the text of its cards: split, parsed, cell 2 skipped *)
+Example C12_example_deck_text :
+  let ctexts := ["1 0 -1 imp:n=1"; "2 like 1 but imp:n=0"; "3 0 1 imp:n=1"] in
+  let dtexts := ["imp:p 1 0 1"; "nps 1"] in
+  let cards := [ (1%Z, (Explicit " 0" " -1 ", "imp:n=1")); (2%Z, (Like 1, " imp:n=0"));
+                 (3%Z, (Explicit " 0" " 1 ", "imp:n=1")) ] in
+  imp_cards_of dtexts = Ok [("imp:p ", ["1"; "0"; "1"])] /\
+  cards_of_texts RS wP ctexts = Ok cards /\
+  exists cells, parse_deck_text RS wP ctexts dtexts [] = Ok (cells, [2%Z]) /\
+                conv_keys RS cells = [1%Z; 3%Z].
+Proof. exact C12_example_deck_text_ok. Qed.
